@@ -79,9 +79,13 @@ type a2 struct {
 type a2exit struct {
 	cells  []string // state of each pointer-carrier parameter's cell at exit ("" if not a pointer carrier)
 	result string   // state of the result ([]byte, value carrier, or pointer carrier's cell); "-" if none
+	// flag: for helpers returning (buffer, bool) — "recognised the type", "done" — the constant the
+	// second result has on this exit ("T"/"F"), "" when there is none or it is not a constant here:
+	// callers branch on it, and the buffer state differs between the two outcomes
+	flag string
 }
 
-func (e a2exit) key() string { return strings.Join(e.cells, "|") + "=>" + e.result }
+func (e a2exit) key() string { return strings.Join(e.cells, "|") + "=>" + e.result + e.flag }
 
 func newA2(r *Run, p *Prog) *a2 {
 	a := &a2{r: r, p: p, sep: p.Spec.Tags != "binary_log", bufField: map[*types.Named]string{},
@@ -777,6 +781,13 @@ func (r *a2run) doReturn(c *a2cfg, ret *ssa.Return) {
 			}
 		}
 	}
+	if len(ret.Results) == 2 && isBoolType(ret.Results[1].Type()) {
+		if b, ok := constBool(ret.Results[1]); ok {
+			ex.flag = tern(b, "T", "F")
+		} else if st, ok := c.vals[ret.Results[1]]; ok && strings.HasPrefix(st, "b:") {
+			ex.flag = st[2:]
+		}
+	}
 	if len(ret.Results) > 0 {
 		v := ret.Results[0]
 		k, suf := a.carrier(v.Type())
@@ -866,6 +877,16 @@ func (r *a2run) edge(c *a2cfg, b *ssa.BasicBlock, si int, s *ssa.BasicBlock) *a2
 			continue
 		}
 		e := phi.Edges[pi]
+		if isBoolType(phi.Type()) {
+			if b, ok := constBool(e); ok {
+				out.vals[phi] = "b:" + tern(b, "T", "F")
+			} else if st, ok := nc.vals[e]; ok && strings.HasPrefix(st, "b:") {
+				out.vals[phi] = st
+			} else {
+				delete(out.vals, phi)
+			}
+			continue
+		}
 		k, suf := a.carrier(phi.Type())
 		switch k {
 		case cBytes, cVal:
@@ -962,6 +983,10 @@ func (r *a2run) refine(c *a2cfg, ifi *ssa.If, pol bool) (bool, *a2cfg) {
 			continue
 		}
 		break
+	}
+	if st, ok := c.vals[cond]; ok && strings.HasPrefix(st, "b:") {
+		// the boolean a (buffer, bool) helper returned on this configuration's exit
+		return (st == "b:T") == pol, nil
 	}
 	if ex, isEx := cond.(*ssa.Extract); isEx && ex.Index == 1 {
 		if ta, isTA := ex.Tuple.(*ssa.TypeAssert); isTA && ta.CommaOk {
@@ -1522,6 +1547,17 @@ func (r *a2run) doSummaryCall(c *a2cfg, call *ssa.Call, sc *ssa.Function) []*a2c
 		}
 	}
 	kr, sufr := a.carrier(call.Type())
+	// (buffer, bool) results: the buffer state travels with the tuple (Extract #0 reads it), the
+	// boolean with Extract #1
+	var tupleExt [2][]*ssa.Extract
+	if tup, ok := call.Type().(*types.Tuple); ok && tup.Len() == 2 && isBoolType(tup.At(1).Type()) {
+		kr, sufr = a.carrier(tup.At(0).Type())
+		for _, ref := range referrersOf(call) {
+			if ex, ok := ref.(*ssa.Extract); ok && ex.Index < 2 {
+				tupleExt[ex.Index] = append(tupleExt[ex.Index], ex)
+			}
+		}
+	}
 	if !any && kr == cNone {
 		return []*a2cfg{c}
 	}
@@ -1593,6 +1629,14 @@ func (r *a2run) doSummaryCall(c *a2cfg, call *ssa.Call, sc *ssa.Function) []*a2c
 			case cBytes, cVal:
 				if ex.result != "-" {
 					n.vals[call] = ex.result
+					for _, e0 := range tupleExt[0] {
+						n.vals[e0] = ex.result
+					}
+				}
+				if ex.flag != "" {
+					for _, e1 := range tupleExt[1] {
+						n.vals[e1] = "b:" + ex.flag
+					}
 				}
 			case cPtr:
 				if al := a.aliasParam(sc); al < 0 && ex.result != "-" && ex.result != "*" && ex.result != "nil" {
@@ -1682,4 +1726,9 @@ func knownDynTypes(f *ssa.Function, call *ssa.Call, arg ssa.Value) string {
 		fmt.Fprintf(os.Stderr, "knownDynTypes %s call %s arg %s: %d asserts -> %v\n", f.Name(), call, arg.Name(), len(asserts), set)
 	}
 	return strings.Join(set, "|")
+}
+
+func isBoolType(t types.Type) bool {
+	b, ok := t.Underlying().(*types.Basic)
+	return ok && b.Kind() == types.Bool
 }
